@@ -8,25 +8,31 @@ namespace PegVerif
 variable {P : Program} {cfg : Cfg} {env : CEnv} {G : Grammar} {inp : List Sym}
 
 /-- What the emitted function of rule `n` returns, as prescribed by the semantics of `n`. -/
-def RuleSpec (s : St) (p : Nat) (res : Res) (evs : List Token) (o : Outcome) (s' : St) : Prop :=
+def RuleSpec (P : Program) (G : Grammar) (ρ : String → Nat → Bool) (inp : List Sym) (s : St) (p : Nat) (res : Res)
+    (evs : List Token) (o : Outcome) (s' : St) : Prop :=
   match res with
   | .ok p' forest => o = .ret true ∧ s'.pos = p' ∧ s'.ti = s.ti + (postorderL forest).length ∧
       s'.tree.take s'.ti = s.tree.take s.ti ++ postorderL forest ∧ s'.ti ≤ s'.tree.length ∧
-      s'.maxTok = evs.foldl updTok s.maxTok ∧ s'.memo = []
+      s'.maxTok = evs.foldl updTok s.maxTok ∧ MemoOK P G ρ inp s'.memo s'.maxTok.e
   | .fail => o = .ret false ∧ s'.pos = p ∧ s'.ti = s.ti ∧ s'.tree.take s.ti = s.tree.take s.ti ∧
-      s.ti ≤ s'.tree.length ∧ s'.maxTok = evs.foldl updTok s.maxTok ∧ s'.memo = []
+      s.ti ≤ s'.tree.length ∧ s'.maxTok = evs.foldl updTok s.maxTok ∧ MemoOK P G ρ inp s'.memo s'.maxTok.e
+
+theorem memoOK_nil {P G ρ inp e} : MemoOK P G ρ inp [] e := by intro m hm; cases hm
+
+theorem memoOK_init {P G ρ inp} : MemoOK P G ρ inp St.init.memo St.init.maxTok.e := memoOK_nil
 
 /-- **R for a rule function**: there is a run of the emitted function of `n` from any admissible
     state, and it satisfies `RuleSpec`. -/
 theorem R_rule (hW : World P cfg env G inp) {n cr p res evs s}
     (hfind : P.find n = some cr) (hev : Eval G cfg.rho inp (.name n) p res evs)
-    (hpos : s.pos = p) (hple : p ≤ inp.length) (hlen : s.ti ≤ s.tree.length) (hm : s.memo = []) :
-    ∃ o s', Exec P cfg inp cr 0 s Frame.empty (o, s') ∧ RuleSpec s p res evs o s' := by
+    (hpos : s.pos = p) (hple : p ≤ inp.length) (hlen : s.ti ≤ s.tree.length)
+    (hm : MemoOK P G cfg.rho inp s.memo s.maxTok.e) :
+    ∃ o s', Exec P cfg inp cr 0 s Frame.empty (o, s') ∧ RuleSpec P G cfg.rho inp s p res evs o s' := by
   cases hev with
   | name hb hev' =>
-    obtain ⟨r, b', kr, stb, hb', hcr, hkr, huniq, hused, hfine⟩ := hW.rules n cr hfind
+    obtain ⟨r, b', kr, stb, hb', hcr, hkr, huniq, hused, hfine, hid, e, hshape⟩ := hW.rules n cr hfind
     rw [hb] at hb'; cases hb'
-    have h := callee_exec hW hcr hkr huniq hused ((R_all hW hev') hfine).1 hpos hple hlen hm
+    have h := callee_exec hW hfind hcr hkr huniq hused hid hshape hb hev' ((R_all hW hev') hfine).1 hpos hple hlen hm
     cases res with
     | ok p' forest =>
       obtain ⟨s', hex, h1, h2, h3, h4, h5, h6⟩ := h
@@ -39,8 +45,9 @@ theorem R_rule (hW : World P cfg env G inp) {n cr p res evs s}
     returns true exactly when the semantics succeeds, etc. -/
 theorem R_rule_all (hW : World P cfg env G inp) {n cr p res evs s o s'}
     (hfind : P.find n = some cr) (hev : Eval G cfg.rho inp (.name n) p res evs)
-    (hpos : s.pos = p) (hple : p ≤ inp.length) (hlen : s.ti ≤ s.tree.length) (hm : s.memo = [])
-    (hrun : Exec P cfg inp cr 0 s Frame.empty (o, s')) : RuleSpec s p res evs o s' := by
+    (hpos : s.pos = p) (hple : p ≤ inp.length) (hlen : s.ti ≤ s.tree.length)
+    (hm : MemoOK P G cfg.rho inp s.memo s.maxTok.e)
+    (hrun : Exec P cfg inp cr 0 s Frame.empty (o, s')) : RuleSpec P G cfg.rho inp s p res evs o s' := by
   obtain ⟨o1, s1, hex, hspec⟩ := R_rule hW hfind hev hpos hple hlen hm
   have := Exec_det hex hrun
   cases this
@@ -60,11 +67,11 @@ theorem R_parseF (hW : World P cfg env G inp) {n cr res evs fuel pr st}
   split at hrun
   · cases hrun; exact absurd rfl hfuel
   · next s' hx =>
-    have := R_rule_all hW hfind hev rfl (Nat.zero_le _) (by simp [St.init]) (by simp [St.init])
+    have := R_rule_all hW hfind hev rfl (Nat.zero_le _) (by simp [St.init]) memoOK_init
       (execF_sound _ _ _ _ _ _ hx)
     cases res <;> simp [RuleSpec] at this
   · next s' hx =>
-    have := R_rule_all hW hfind hev rfl (Nat.zero_le _) (by simp [St.init]) (by simp [St.init])
+    have := R_rule_all hW hfind hev rfl (Nat.zero_le _) (by simp [St.init]) memoOK_init
       (execF_sound _ _ _ _ _ _ hx)
     cases hrun
     cases res with
@@ -75,7 +82,7 @@ theorem R_parseF (hW : World P cfg env G inp) {n cr res evs fuel pr st}
       rw [h3]
     | fail => simp [RuleSpec] at this
   · next s' hx =>
-    have := R_rule_all hW hfind hev rfl (Nat.zero_le _) (by simp [St.init]) (by simp [St.init])
+    have := R_rule_all hW hfind hev rfl (Nat.zero_le _) (by simp [St.init]) memoOK_init
       (execF_sound _ _ _ _ _ _ hx)
     cases hrun
     cases res with
